@@ -1,0 +1,44 @@
+//go:build verif
+
+package schema
+
+// Contracts for govc (see /verif/DESIGN.md §5 C20). Comment-only; compiled only
+// under the build tag "verif".
+//
+// A type system and its types are written while they are being set up (Init,
+// Accumulate, _Type) and only read afterwards: every other method writes
+// nothing that existed before the call.
+//@ func (*TypeSystem).Init()
+//@   requires ts != nil
+//@   assigns ts.namedTypes, ts.names
+//@ func (*TypeSystem).Accumulate(typ)
+//@   requires ts != nil && typ != nil
+//@   assigns foreign, ts.names, map(ts.namedTypes)
+//@ func (*typeBase)._Type(ts)
+//@   requires t != nil
+//@   assigns t.universe
+// SpawnStruct links the fields it is given to the new type: it writes the caller's field slice.
+//@ func SpawnStruct(name, fields, repr) (r)
+//@   assigns cells(fields)
+// Every implementation of Type is one of the swept types below.
+//@ interface Type.Name() (r)
+//@   assigns nothing
+//@ interface Type.TypeKind() (r)
+//@   assigns nothing
+//@ interface Type.TypeSystem() (r)
+//@   assigns nothing
+//@ interface Type.RepresentationBehavior() (r)
+//@   assigns nothing
+//@ sweep[C20] assigns nothing: SpawnString(), SpawnBool(), SpawnInt(), SpawnFloat(), SpawnBytes(), SpawnLink(), SpawnLinkReference(), SpawnList(),
+//@   SpawnMap(), SpawnAny(), SpawnStructField(), SpawnStructRepresentationMap(), SpawnStructRepresentationMap2(),
+//@   SpawnStructRepresentationTuple(), SpawnStructRepresentationListPairs(), SpawnStructRepresentationStringjoin(), SpawnUnion(),
+//@   SpawnUnionRepresentationKeyed(), SpawnUnionRepresentationKinded(), SpawnUnionRepresentationStringprefix(),
+//@   SpawnUnionRepresentationInline(), SpawnEnum()
+//@ sweep[C20] assigns nothing: TypeSystem, typeBase, TypeBool, TypeString, TypeBytes, TypeInt, TypeFloat, TypeAny, TypeMap, TypeList, TypeLink,
+//@   TypeUnion, UnionRepresentation_Keyed, UnionRepresentation_Kinded, UnionRepresentation_Envelope, UnionRepresentation_Inline,
+//@   UnionRepresentation_Stringprefix, TypeStruct, StructField, StructRepresentation_Map, StructRepresentation_Tuple,
+//@   StructRepresentation_ListPairs, StructRepresentation_StringPairs, StructRepresentation_Stringjoin, TypeEnum,
+//@   EnumRepresentation_String, EnumRepresentation_Int, ImplicitValue_EmptyList, ImplicitValue_EmptyMap, ImplicitValue_String,
+//@   ImplicitValue_Int, ImplicitValue_Bool, TypeKind, Maybe
+// ValidateGraph (a set-up time check that builds error lists in loops) is not part of the sweep.
+//@ func (TypeSystem).ValidateGraph() (r)
